@@ -247,6 +247,12 @@ class LifeCycle:
         if not acks:
             return "either"
         last = acks[-1]
+        if getattr(self, "drop_time", None) is not None:
+            # the first acknowledgement after the injected loss never reached F: from then until the next one the BBMD serves
+            # an entry that F has reason to doubt (its watchdog may make it discard what it is sent): nothing is demanded
+            later = [a for a in self.acks if a >= self.drop_time]
+            if later and t >= later[0] and (len(later) < 2 or t < later[1]):
+                return "either"
         if self.delete_ack is not None and self.delete_ack <= t and last <= self.delete_ack:
             return "must-not"
         if self.unreg is not None and t >= self.unreg:
@@ -388,11 +394,43 @@ class LifeCycle:
                 self.scan()
                 nxt = [t for t, tt in self.reg_times][-1] + ttl
                 self.walk(CLOCK.now, min(nxt - 0.01, CLOCK.now + 5), step=0.25 if ttl <= 5 else 1.0)
+            elif self.scenario == "lost-ack":
+                # the acknowledgement of one renewal is lost on its way to F: the BBMD has renewed the entry (the wire shows it),
+                # F's watchdog may fire, F keeps renewing and is served throughout
+                self.fd.mux.drop_results = 1
+                self.drop_time = CLOCK.now
+                t_stop = CLOCK.now + 3 * ttl + GRACE + 10
+                if not self.walk(CLOCK.now + 0.5, t_stop, step=max(1.0, ttl / 5.0)):
+                    return
+                self.scan()
+                regs = [t for t, tt in self.reg_times if tt > 0]
+                for a, b in zip(regs, regs[1:]):
+                    if b - a > ttl + 0.5:
+                        self.run.violation("registration-not-renewed-in-time/after-a-lost-acknowledgement", dict(self.wit, gap=b - a))
+                        return
+                if regs and CLOCK.now - regs[-1] > ttl + 0.5:
+                    self.run.violation("registration-not-renewed-in-time/after-a-lost-acknowledgement", dict(self.wit, gap=CLOCK.now - regs[-1], renewals_stopped=True))
+                    return
+                self.run.count("lost_acknowledgement_cycles")
             elif self.scenario == "unregister":
                 self.fd.bip.unregister()
                 self.unreg = CLOCK.now
                 CLOCK.settle()
                 self.walk(self.unreg + GRACE - 1, self.unreg + GRACE + 4)
+            elif self.scenario == "register-again":
+                # the device unregisters and, some time later, registers again: from the new acknowledgement on it is served
+                self.fd.bip.unregister()
+                self.unreg = CLOCK.now
+                CLOCK.drive(duration=rng.choice([0.5, 3.0, GRACE + 5.0]), max_steps=200000)
+                self.fd.bip.register(Address("192.168.1.2"), ttl)
+                CLOCK.drive(duration=0.3, max_steps=100000)
+                self.unreg = None
+                self.scan()
+                if not self.acks or self.acks[-1] < CLOCK.now - 1.0:
+                    self.run.violation("registration-not-acknowledged/after-unregistering", self.wit)
+                    return
+                self.walk(CLOCK.now, CLOCK.now + min(2 * ttl, 100) + 2, step=max(0.5, ttl / 4.0))
+                self.run.count("register_again_cycles")
         except StepBudgetExceeded as err:
             self.run.violation("life-cycle-does-not-quiesce", dict(self.wit, error=str(err)))
             return
@@ -430,7 +468,7 @@ def main():
     ttls = [1, 2, 5, 30, 60, 300] if not thorough else [1, 2, 3, 5, 10, 30, 60, 120, 300]
     k = 0
     for ttl in ttls:
-        for scenario in ("death", "delete", "unregister"):
+        for scenario in ("death", "delete", "unregister", "lost-ack", "register-again"):
             for rep in range(32 if thorough else 3):
                 k += 1
                 if thorough and not run.mine(k):
